@@ -10,7 +10,7 @@ CLAIMS = {
  "C02": ("proof", "acyclicity is the existence of rank witnesses inside wf; every loop of the mutators has a discharged decreases clause (rewrite_parents, the four ancestor walks, remove_subtree); iterator finiteness follows from the step contracts and the rank measures.", "§4 C02",
          "termination of the external_body functions listed in the evidence is not covered"),
  "C03": ("proof", "exact link-level postconditions (moved node, closed gap, new neighbours, every other field of every other slot unchanged) on detach, the four checked inserts, their unchecked forms, append_value and the helpers they are built from.", "§4 C03", "none beyond the common trusted base"),
- "C04": ("proof", "remove: exact link-level effect (children spliced into x's place, nothing else changes), payload and free-list frame. remove_subtree: well-formedness, termination and removal of the root are proved; the 'exactly the subtree' frame is stated in DESIGN.md as open until proved.", "§4 C04", "see level text for the part of remove_subtree that is not yet a discharged obligation"),
+ "C04": ("proof", "remove: exact link-level effect (children spliced into x's place, every field of every other slot unchanged), payload and free-list frame. remove_subtree: exactly x and its descendants are removed, once each, and every slot outside the subtree keeps all links, its generation and its payload (loop invariant rs_inv), plus well-formedness and termination.", "§4 C04", "none beyond the common trusted base"),
  "C05": ("proof", "each checked insert: Err <=> impossible, the reported reason applies, Err leaves all three fields of the arena unchanged, Ok has the exact effect; every panic site (assert*, debug_assert*, unreachable!, expect, unwrap, indexing, arithmetic) is a discharged obligation; unchecked forms verified under the success precondition.", "§4 C05", "std's expect/unwrap panic exactly on Err/None"),
  "C06": ("proof", "stamp transitions: free_node maps a live stamp g to -(g+1) keeping the high-water mark, Node::reuse yields high-water+1, new_node returns exactly that stamp, every other function leaves stamps unchanged (frame clauses); overflow freedom of the i16 arithmetic is an obligation.", "§4 C06", "machine integers are modelled exactly by Verus (overflow is an obligation)"),
  "C07": ("proof", "ghost free-list sequence: pop_front hands out the oldest free slot, free_node appends exactly once (or retires an exhausted slot), new_node recycles before growing and returns a slot that held no live node, all other slots untouched.", "§4 C07", "Vec<Node<T>> never holds usize::MAX elements (axiom_vec_node_len)"),
